@@ -18,6 +18,8 @@ pub const F_REORDER: u8 = 2;
 pub const F_TS_CORRUPT: u8 = 4;
 pub const F_SPIKE: u8 = 8;
 pub const F_AFTER_RESUME: u8 = 16;
+/// K_LOG only: the text is padded so that the message is (nearly) of maximum size (len 65520..65535)
+pub const F_HUGE: u8 = 32;
 
 #[derive(Clone, Debug, PartialEq, Eq, Serialize, Deserialize)]
 pub struct TMsg {
@@ -56,7 +58,15 @@ fn verbose_string_payload(s: &str) -> Vec<u8> {
 
 impl TMsg {
     pub fn payload_text(&self) -> String {
-        format!("msg {} of ecu {} boot {} app {}", self.n, self.ecu, self.boot, self.app)
+        let mut s = format!("msg {} of ecu {} boot {} app {}", self.n, self.ecu, self.boot, self.app);
+        if self.flags & F_HUGE != 0 && self.kind == K_LOG {
+            let hdr = 4 + 4 + if self.has_ts { 4 } else { 0 } + 10 + 4 + 2 + 1;
+            let target = 65_535 - (self.n % 16) as usize;
+            while s.len() < target - hdr {
+                s.push('x');
+            }
+        }
+        s
     }
     pub fn to_dlt(&self, index: u32) -> DltMessage {
         let mut htyp: u8 = 0x20 | 0x04; // version 1, with ecu id
